@@ -145,6 +145,14 @@ def qmtpCheck (c : Case) (r0 : Rep) : Rep := Id.run do
     let rec? := c.recs[k]?
     let acked := (q.rcpts.zip mine).filter (fun (_, rp) => rp.head? == some 75)
     let ackedAddrs := acked.map (fun (a, _) => a ++ c.relay.getD [])
+    -- Replies of ONE message can be cut in the middle: ssout (256 bytes) flushes itself when it fills up, and what is still
+    -- buffered is lost when the daemon exits on a later protocol violation (notes/C07.md §4).  Then `mine` is a proper,
+    -- non-empty prefix of the message's replies.  The recipients whose reply was never sent are not "acknowledged" by any
+    -- byte the client saw; for them the envelope must hold exactly those that policy accepts (the independent predicate used
+    -- for the class check below) - the visible part is still required to match the visible acknowledgements exactly.
+    let unseen := q.rcpts.drop mine.length
+    let unseenOk := unseen.filter (fun a => !(badAddr a relayLen || (c.relay.isNone && !rcpthostsOk (some rcpthostsFile) a)))
+    let expectRcpts := ackedAddrs ++ unseenOk.map (fun a => a ++ c.relay.getD [])
     let stored := q.body
     let tooBig := c.databytes ≠ 0 && stored.length > c.databytes
     let senderBad := badAddr q.sender 0
@@ -154,8 +162,8 @@ def qmtpCheck (c : Case) (r0 : Rep) : Rep := Id.run do
       match rec? with
       | none => r := r.ora c "ack-without-queue" s!"message {k} acknowledged but no queue run"
       | some (f0, f1) =>
-        if !Queued f0 f1 e.exit e.crashed content q.sender ackedAddrs then
-          r := r.ora c "ack-not-exact" s!"message {k} acknowledged but queue got fd0={hex f0} fd1={hex f1} exit={e.exit} crashed={e.crashed} expected-content={hex content}"
+        if !Queued f0 f1 e.exit e.crashed content q.sender expectRcpts then
+          r := r.ora c "ack-not-exact" s!"message {k} acknowledged but queue got fd0={hex f0} fd1={hex f1} exit={e.exit} crashed={e.crashed} expected-content={hex content} expected-rcpts={expectRcpts.map hex} replies-seen={mine.length}/{n}"
       if tooBig then r := r.ora c "ack-oversize" s!"message {k} of {stored.length} bytes acknowledged with databytes={c.databytes}"
       if senderBad then r := r.ora c "ack-bad-sender" s!"message {k} acknowledged with an unacceptable sender"
     -- queued ⇒ acknowledged (when the replies were sent at all)
